@@ -24,10 +24,11 @@ Variable expr_eqb : expr -> expr -> bool.
 Variable key_eqb : key -> key -> bool.
 Variable keyf : expr -> key.
 Variable doit : expr -> expr.
+Variable picklable : expr -> bool.
 Hypothesis eqb_doit : forall a b, expr_eqb a b = true -> doit a = doit b.
 
-Notation runR := (run expr key expr_eqb key_eqb keyf doit Robust).
-Notation runP := (run expr key expr_eqb key_eqb keyf doit Pinned).
+Notation runR := (run expr key expr_eqb key_eqb keyf doit picklable Robust).
+Notation runP := (run expr key expr_eqb key_eqb keyf doit picklable Pinned).
 
 (* Robust (= current code): from any directory without forged files, after ANY schedule:
    the directory is still free of forged files, every call that has returned has returned
@@ -40,7 +41,7 @@ Theorem C16_robust_correct : forall (d : key -> option (content expr)) (acts : l
   /\ (forall i e, nth_error (procs s') i <> Some (PRaised e)).
 Proof.
   intros d acts H1 H2 H3 s'.
-  destruct (robust_correct_l expr key expr_eqb key_eqb keyf doit eqb_doit acts (init d)
+  destruct (robust_correct_l expr key expr_eqb key_eqb keyf doit picklable eqb_doit acts (init d)
               (inv_init expr key doit d H1 H2) H3) as (_ & A & B & C).
   repeat split; auto.
 Qed.
@@ -48,8 +49,8 @@ Qed.
 (* the invariant is inductive: preserved by every single action from every state *)
 Theorem C16_robust_invariant_step : forall s a,
   Inv expr key doit s -> is_block a = false ->
-  Inv expr key doit (step expr key expr_eqb key_eqb keyf doit Robust s a).
-Proof. exact (step_inv expr key expr_eqb key_eqb keyf doit eqb_doit). Qed.
+  Inv expr key doit (step expr key expr_eqb key_eqb keyf doit picklable Robust s a).
+Proof. exact (step_inv expr key expr_eqb key_eqb keyf doit picklable eqb_doit). Qed.
 
 (* total correctness / no blocking: a call on e that is not itself killed and is scheduled for
    6 steps returns doit e — whatever the other calls do, whichever of them are killed, whatever
@@ -60,7 +61,7 @@ Theorem C16_robust_total : forall s acts i e,
   no_crash_of expr key i acts -> 6 <= own_steps expr key i acts ->
   nth_error (procs (runR acts s)) i = Some (PDone e (VExpr (doit e))).
 Proof.
-  intros; apply (robust_total_l expr key expr_eqb key_eqb keyf doit eqb_doit); auto.
+  intros; apply (robust_total_l expr key expr_eqb key_eqb keyf doit picklable eqb_doit); auto.
 Qed.
 
 (* Pinned (the code before 7aad13b) — PARTIAL, sequential form: correct for undisturbed calls
@@ -68,13 +69,14 @@ Qed.
    doit on the expressions USED (a weaker injectivity than in the interleaved form below). *)
 Theorem C16_pinned_correct_partial :
   (forall a b, key_eqb a b = true <-> a = b) ->
+  (forall e, picklable e = true) ->
   forall es l d,
   pinv expr key keyf doit d ->
   (forall e e', In e es -> keyf e = keyf e' -> doit e = doit e') ->
   let s' := runP (seq_calls (length l) es) (mkSys d l) in
   pinv expr key keyf doit (dir s') /\ procs s' = l ++ map (fun e => PDone e (VExpr (doit e))) es.
 Proof.
-  intros Hk; exact (pinned_correct_partial_l expr key expr_eqb key_eqb keyf doit Hk).
+  intros Hk Hp; exact (pinned_correct_partial_l expr key expr_eqb key_eqb keyf doit picklable Hk Hp).
 Qed.
 
 (* Pinned, interleaved — PARTIAL: calls may interleave freely and be killed, PROVIDED every write
@@ -86,17 +88,18 @@ Qed.
 Theorem C16_pinned_correct_interleaved_partial :
   (forall a b, key_eqb a b = true <-> a = b) ->
   (forall e e', keyf e = keyf e' -> doit e = doit e') ->
+  (forall e, picklable e = true) ->
   forall (l : list (atom expr)) s,
-  PInvS expr key keyf doit s -> sched_ok expr key expr_eqb key_eqb keyf doit s l ->
-  let s' := run_atoms expr key expr_eqb key_eqb keyf doit l s in
+  PInvS expr key keyf doit s -> sched_ok expr key expr_eqb key_eqb keyf doit picklable s l ->
+  let s' := run_atoms expr key expr_eqb key_eqb keyf doit picklable l s in
   pinv expr key keyf doit (dir s')
   /\ (forall i e v, nth_error (procs s') i = Some (PDone e v) -> v = VExpr (doit e))
   /\ (forall i e, nth_error (procs s') i <> Some (PRaised e)).
-Proof. exact (pinned_interleaved_l expr key expr_eqb key_eqb keyf doit). Qed.
+Proof. exact (pinned_interleaved_l expr key expr_eqb key_eqb keyf doit picklable). Qed.
 End C16.
 
 (* ---- refutations of the pinned variant (vm_compute witnesses), numbers as expressions ---- *)
-Notation nrunv v keyf doit := (run nat nat Nat.eqb Nat.eqb keyf doit v).
+Notation nrunv v keyf doit := (run nat nat Nat.eqb Nat.eqb keyf doit (fun _ => true) v).
 
 (* two expressions with different unfoldings and one key, called one after the other, nothing
    crashes: the second call returns the unfolding of the first *)
@@ -122,7 +125,25 @@ Theorem C16_pinned_refuted_concurrent :
     procs (nrunv Pinned (fun e => e) doit acts (init empty_dir)) = [PDone 0 (VExpr (doit 0)); PRaised 0].
 Proof. exists dS, w_concurrent. split; [reflexivity | exact pinned_refuted_concurrent_l]. Qed.
 
+(* every expression can be pickled in the hypotheses above because the pinned code lets the
+   PicklingError escape (and leaves a truncated file, so the next call on that key raises too) *)
+Theorem C16_pinned_refuted_unpicklable :
+  let s := run nat nat Nat.eqb Nat.eqb kid dS unp Pinned (call 0 0 ++ call 1 0) (init empty_dir) in
+  procs s = [PRaised 0; PRaised 0] /\ dir s 0 = Some Garbage.
+Proof. exact pinned_refuted_unpicklable_l. Qed.
+
 (* ---- non-vacuity ---- *)
+(* [picklable] is not constrained in the Robust theorems: an expression that cannot be pickled
+   (number 0 here) gets doit e, nothing is written; the picklable expression 1 with the SAME key is
+   served and cached before and after *)
+Example C16_robust_unpicklable_returns :
+  let s := run nat nat Nat.eqb Nat.eqb kconst dS unp Robust (call 0 0) (init empty_dir) in
+  procs s = [PDone 0 (VExpr (dS 0))] /\ dir s 0 = None
+  /\ procs (run nat nat Nat.eqb Nat.eqb kconst dS unp Robust w_unpicklable (init empty_dir))
+     = [PDone 0 (VExpr (dS 0)); PDone 1 (VExpr (dS 1)); PDone 0 (VExpr (dS 0)); PDone 1 (VExpr (dS 1))]
+  /\ dir (run nat nat Nat.eqb Nat.eqb kconst dS unp Robust w_unpicklable (init empty_dir)) 0 = Some (Valid 1 (dS 1)).
+Proof. exact robust_unpicklable_l. Qed.
+
 (* the same three schedules under the current code *)
 Example C16_robust_survives_collision :
   procs (nrunv Robust kconst dS w_collision (init empty_dir)) = [PDone 0 (VExpr (dS 0)); PDone 1 (VExpr (dS 1))].
@@ -159,8 +180,8 @@ Qed.
 (* hypotheses of C16_pinned_correct_interleaved_partial are satisfiable by a genuinely
    interleaved schedule (two calls on one expression, a third call killed) *)
 Example C16_pinned_interleaved_admissible :
-  sched_ok nat nat Nat.eqb Nat.eqb kid dS (init empty_dir) pin_sched
-  /\ procs (run_atoms nat nat Nat.eqb Nat.eqb kid dS pin_sched (init empty_dir))
+  sched_ok nat nat Nat.eqb Nat.eqb kid dS (fun _ => true) (init empty_dir) pin_sched
+  /\ procs (run_atoms nat nat Nat.eqb Nat.eqb kid dS (fun _ => true) pin_sched (init empty_dir))
      = [PDone 0 (VExpr (dS 0)); PDone 0 (VExpr (dS 0)); PCrashed 1].
 Proof. exact pin_sched_ok_l. Qed.
 
@@ -186,16 +207,17 @@ Proof. exact hash_mode_fallback_l. Qed.
 (* whatever the environment value, whatever key function each mode stands for: correctness *)
 Theorem C16_robust_correct_any_env :
   forall (expr key : Type) (expr_eqb : expr -> expr -> bool) (key_eqb : key -> key -> bool)
-         (key_of : HashMode.keymode -> expr -> key) (doit : expr -> expr) (v : HashMode.envval),
+         (key_of : HashMode.keymode -> expr -> key) (doit : expr -> expr) (picklable : expr -> bool)
+         (v : HashMode.envval),
   (forall a b, expr_eqb a b = true -> doit a = doit b) ->
   forall d acts, dir_ok expr key doit d -> no_blocked expr key d -> no_block_actions expr key acts ->
-  let s' := run expr key expr_eqb key_eqb (key_of (HashMode.hash_mode v)) doit Robust acts (init d) in
+  let s' := run expr key expr_eqb key_eqb (key_of (HashMode.hash_mode v)) doit picklable Robust acts (init d) in
   dir_ok expr key doit (dir s')
   /\ (forall i e w, nth_error (procs s') i = Some (PDone e w) -> w = VExpr (doit e))
   /\ (forall i e, nth_error (procs s') i <> Some (PRaised e)).
 Proof.
-  intros expr key expr_eqb key_eqb key_of doit v H d acts.
-  exact (C16_robust_correct expr key expr_eqb key_eqb (key_of (HashMode.hash_mode v)) doit H d acts).
+  intros expr key expr_eqb key_eqb key_of doit picklable v H d acts.
+  exact (C16_robust_correct expr key expr_eqb key_eqb (key_of (HashMode.hash_mode v)) doit picklable H d acts).
 Qed.
 
 Example C16_hash_mode_examples :
@@ -223,6 +245,8 @@ Print Assumptions C16_messy_directory_admissible.
 Print Assumptions C16_busy_schedule_admissible.
 Print Assumptions C16_pinned_interleaved_admissible.
 Print Assumptions C16_blocked_entry_raises.
+Print Assumptions C16_pinned_refuted_unpicklable.
+Print Assumptions C16_robust_unpicklable_returns.
 Print Assumptions C16_hash_mode_spec.
 Print Assumptions C16_hash_mode_fallback.
 Print Assumptions C16_robust_correct_any_env.
